@@ -42,8 +42,7 @@ class IntShim(SI, metaclass=_IntMeta):
             if isinstance(x, SB):
                 return core.s_ite(x, 1, 0)
             if isinstance(x, Ratio):
-                q = x.num // x.den
-                return q
+                return x.__int__()
             return builtins.int(x) if base is None else builtins.int(x, base)
         obj = object.__new__(cls)
         obj.n = lift(x)
@@ -410,8 +409,16 @@ def make_modules():
     def log(x, *a):
         return _math.log(concretize(x), *a)
 
+    def trunc(x):
+        if isinstance(x, Ratio):
+            return x.__trunc__()
+        if isinstance(x, SI):
+            return x
+        return _math.trunc(x)
+
     mt.ceil = ceil
     mt.floor = floor
+    mt.trunc = trunc
     mt.log = log
     m["math"] = mt
 
